@@ -788,8 +788,18 @@ def clamps(ctx):
     fn = ctx.fn("Color.parse_color_rgbp", "R13.7")
     alg = Alg()
     n = 0
-    for s in fn.body:
-        if isinstance(s, ast.Assign) and isinstance(s.targets[0], ast.Name):
+    from ..flow import split_tuple_assign as _sta13
+
+    class _One:  # one (target, value) pair of a possibly tuple-shaped assignment, presented like a plain Assign
+        def __init__(self, tg, v, st):
+            self.targets, self.value, self.lineno = [tg], v, st.lineno
+
+    flat = []
+    for st_ in fn.body:
+        if isinstance(st_, ast.Assign):
+            flat.extend(_One(tg, v, st_) for tg, v in _sta13(st_))
+    for s in flat:
+        if isinstance(s.targets[0], ast.Name):
             v = s.value
             while isinstance(v, ast.Call) and isinstance(v.func, ast.Name) and v.func.id in ("round", "int"):
                 v = v.args[0]
